@@ -97,8 +97,10 @@ def merge_and_view_forms(name_prefix, k0, tier):
         pairs = [p for p in pairs if p[0]["k"] != "bv" and p[1]["k"] != "bv"]
     for ta, tb in pairs:
         for dst in ([ta, tb] if ta != tb else [ta]):
-            for srcform in ("port", "signal"):
+            for srcform in ("port", "signal", "counter"):
                 if tier == "quick" and srcform == "signal" and (ta["k"] == tb["k"]):
+                    continue
+                if srcform == "counter" and (ta["k"] == "bv" or tb["k"] == "bv" or (tier == "quick" and ta["w"] != tb["w"])):
                     continue
                 ports = [port("clk", "in", BIT), port("c", "in", BIT), port("a", "in", ta), port("b", "in", tb),
                          port("o", "out", dst, default=0)]
@@ -107,6 +109,13 @@ def merge_and_view_forms(name_prefix, k0, tier):
                 if srcform == "signal":
                     objs = [obj("xa", "signal", ta, default=0), obj("xb", "signal", tb, default=0)]
                     ctxs.append(conc_ctx("feed", [assign("next", "xa", ref("a")), assign("next", "xb", ref("b"))]))
+                    ea, eb = ref("xa"), ref("xb")
+                if srcform == "counter":
+                    # the merged values are free-running registers with a default, written by an earlier sequential context
+                    # (their compile-time placeholders are "initialised" constants)
+                    objs = [obj("xa", "signal", ta, default=0), obj("xb", "signal", tb, default=0)]
+                    ctxs.append(seq_ctx("count", [assign("next", "xa", bin_("add", ref("xa"), pint(1)), form="attr"),
+                                                  assign("next", "xb", bin_("add", ref("xb"), pint(1)), form="attr")]))
                     ea, eb = ref("xa"), ref("xb")
                 ctxs.append(seq_ctx("proc", [assign("next", "o", ifexp(ref("c"), ea, eb))]))
                 en = entity(f"{name_prefix}_{k:04d}", ports, objs, ctxs)
@@ -128,6 +137,23 @@ def merge_and_view_forms(name_prefix, k0, tier):
     return ents
 
 
+def local_init_forms(name_prefix, k0, tier):
+    """initial value of a signal constructed inside a context: `x = Signal[T](source)` ("initialisation" in C05)"""
+    ents = []
+    k = k0
+    ws = (2, 3) if tier == "quick" else (1, 2, 3, 4)
+    vec = [T(kk, w) for kk in ("bv", "u", "s") for w in ws]
+    for src in vec + [BIT]:
+        for dst in vec + [BIT]:
+            ports = [port("clk", "in", BIT), port("a", "in", src), port("o", "out", dst, default=0)]
+            body = [local("x", dst, ref("a")), assign("next", "o", ref("x"))]
+            en = entity(f"{name_prefix}_{k:04d}", ports, [obj("x", "signal", dst, local=True)], [seq_ctx("proc", body)])
+            en["family"] = f"{tname(src)}->{tname(dst)}:local-init"
+            ents.append(en)
+            k += 1
+    return ents
+
+
 def build(tier):
     maxw = 2 if tier == "quick" else 3
     ents = []
@@ -145,6 +171,7 @@ def build(tier):
                 k += 1
     ents += slice_forms("E05", k, maxw + 1)
     ents += merge_and_view_forms("E05", len(ents), tier)
+    ents += local_init_forms("E05", len(ents), tier)
     return ents
 
 
